@@ -16,6 +16,7 @@ LEVEL = "proof"
 _native.install(REG)
 _native.install_funnel()
 _native.install_types(REG)
+_native.install_chain()
 NATIVE = _native.NATIVE
 NATIVE_BUDGET = {"quick": 40, "thorough": 600}
 
